@@ -114,30 +114,58 @@ SPEC = dict(
          "+-inf, NaN) and ~45 p-values probed with score and pvalue(score(p)) (grid, j/4^M, exact table entries and "
          "their f64 neighbours, 0, 1, outside [0,1], NaN). Observables: every entry of sf() as a bit pattern, "
          "min_pvalue, every pvalue/score/round-trip result as a bit pattern, scale(score) of every pvalue probe and unscale(i) of 0, 1, len-1, len and the probed table indices (the two public helpers called directly), panics. PROPFAIL = the extracted Coq "
-         "checker check_C11_fails (sound: C11.check_C11_sound) returns a failure on the implementation's observations "
-         "of a case inside the property's domain (c11_in_scope: finite non-wildcard cells, wildcard finite or -inf): "
+         "checker check_C11_strict_fails (= check_C11_fails on the domain for K >= 2: C11_strict_checker_eq; sound: "
+         "check_C11_strict_sound, which also exhibits the positive exact scale whenever bracket probes were judged) returns a "
+         "failure of kind 1..7 on the implementation's observations "
+         "of a case inside the property's domain (c11_in_scope: at least one row, finite non-wildcard cells, wildcard finite "
+         "or -inf; with K >= 2 this implies a finite cell. Matrices without any finite cell - M = 0 or only -inf cells - are "
+         "outside the property: d = (M/2+1) discretisation steps is undefined without a range of finite cells; there "
+         "to_score_distribution panics (min_by(..).unwrap(), dist.rs:139 = model Panic 1: C11_no_finite_cell_panics, "
+         "C11_empty_matrix_panics), replayed by corpus e0/e1: OK iff both sides panic, the model at site 1): "
          "table non-increasing in [0,1] (exact IEEE compare); "
          "P(S>=s+d)*(1-2^-30)-delta <= pvalue(s) <= P(S>=s-d)*(1+2^-30)+delta with the exact tails from the "
          "integer word table of the dyadic matrix (= tail_exact by C11_tail_dyadic_correct / C11_dyadic_values) or, when smaller (at "
          "most 20000 entries: long motifs, quantised cells), from the table with one entry per distinct word score "
          "(DistGridModel.conv_tableZ; the checker through it is check_C11_fails as a function, C11_grid_checker_eq; weights without "
          "their common power of two: C11_red_checker_eq; "
-         "delta = |1-(sum b)^M|, 0 for dyadic backgrounds; skipped for more than 70000 words or beyond a per-case "
-         "budget of 2.5e6 word visits); "
-         "p-values non-increasing over all probe pairs; pvalue(score(p)) <= p (IEEE) or <= p*(1+2^-30)+delta for p in "
-         "(0,1); or a panic of to_score_distribution/pvalue/score(p in (0,1)) inside the domain, also when the model does not panic "
+         "delta = |1-(sum b)^M|, 0 for dyadic backgrounds; the checker's d is the rational (M/2 + 1)/scale - for odd M half a "
+         "step wider than the integer reading floor(M/2)+1 of the property text; it absorbs the binary64 rounding of the "
+         "probe's scaled score at exact half-step ties; the half step of the word is attained: C11_discretisation_error; "
+         "theorems: d = (M+1)/2 steps (C11_pvalue_brackets_tight) and the text's integer d (C11_pvalue_brackets_integer_d); "
+         "not judged for more than 70000 words and more than 20000 grid points, or beyond a per-case "
+         "budget of 2.5e6 word visits: such cases and probes are COUNTED - the driver logs per case what its verdict rests "
+         "on (domain, exact table used, bracket-judged probes / finite probes, hypotheses of the binary64 theorems) and the "
+         "evidence notes carry the totals; failure kind 8 (probes handed over, exact scale not established; unreachable for "
+         "K >= 2: C11_bracket_always_judged) is a DIFF `cannot-judge`, never OK); "
+         "p-values non-increasing over all probe pairs; pvalue(score(p)) <= p exactly (IEEE compare), else <= "
+         "p*(1+2^-30)+delta, for p in (0,1) - the tolerance branch is weaker than C11_roundtrip_binary64 (exact under "
+         "f64_roundtrip_pred) and on the unchanged tree is reached only by known-finding cases; or a panic of to_score_distribution/pvalue/score(p in (0,1)) inside the domain, also when the model does not panic "
          "(reported by the driver). DIFF: any bit of the sf table, min_pvalue, pvalue, score or round trip differing from the "
          "extracted binary64 model (Flocq), or a panic on one side only. Non-trivial: distinct (matrix, background) "
-         "inside the property's domain with width <= 8, or of kind `long`. 37 theorems in coq/dist/C11.v.",
+         "inside the property's domain with width <= 8, or of kind `long` (kinds empty / allninf are not counted). corpus/C11/"
+         "witnesses.txt: 23 lines incl. e0 (M = 0), e1 (only -inf cells), x1 (constant cells 2^60: scale = +inf). 51 theorems "
+         "in coq/dist/C11.v.",
     trusted_base=[
         "Coq 8.16.1 kernel (coqc); vm_compute in the Example/_refuted lemmas only; no native_compute",
         "Flocq 4.1.0 (BinarySingleNaN) as the meaning of IEEE binary32/binary64 arithmetic (LMBase.IEEE)",
-        "extraction: ExtrOcamlBasic only (nat, Z, positive, Q kept as extracted inductives); OCaml 4.13.1",
+        "extraction: ExtrOcamlBasic only (its Extract Inductive directives for bool, option, list, prod, unit, sumbool, "
+        "sumor); no other Extract Inductive, no Extract Constant (nat, Z, positive, Q kept as extracted inductives); OCaml "
+        "4.13.1",
         "hand-written OCaml driver ocaml/dist/driver.ml (parsing, bit-pattern comparison with the model, choice of "
-        "which probes are handed to check_C11_fails for the bracket check under the time budget, reporting of panics "
-        "inside the domain, labelling of failures for the known-findings match; choice between the word table and the grid table by an "
+        "which probes are handed to check_C11_strict_fails for the bracket check under the time budget, reporting of panics "
+        "inside the domain, labelling of failures for the known-findings match - the label unscale-inexact of a kind-7 "
+        "failure is decided by the extracted f64_unscale_exact_on evaluated on the model of the case; evaluates the "
+        "hypotheses of the binary64 theorems (f64_bg_ok, f64_dims_ok, f64_scale_pred, f32_matrix_ok_any) on every case with "
+        "the self-check f32ok -> scalepred (DIFF model-selfcheck otherwise); appends one line per case to "
+        "build/ocaml/dist/c11-judged.log (what the verdict rests on), props/c11.py sums it into the evidence notes; choice between the word table and the grid table by an "
         "upper bound of the number of distinct scores (both give tail_exact: C11_tail_dyadic_correct, C11_tail_grid_correct); runs "
         "build_fast (= build: C11_build_fast_eq))",
+        "PROPFAIL decisions of ocaml/dist/driver.ml that are NOT the extracted checker (all are `panic inside the domain`, "
+        "stricter additions, none replaces the checker): build-panic (to_score_distribution panicked on a matrix inside "
+        "c11_in_scope, with or without the model), pvalue-panic probe#i, score-panic (p in (0,1)), sample-panic. Every VALUE "
+        "verdict is check_C11_strict_fails (kinds 1..7 -> PROPFAIL with a hand-written message per kind, kind 8 -> DIFF). "
+        "Outside the domain (no finite cell) the driver checks `no finite cell <-> model Panic 1` and panic on both sides "
+        "(DIFF otherwise)",
         "translator translate/dist_skel.py (regex / brace-matching reader of dist.rs: CDF_RANGE, the statement skeleton "
         "of From<ScoringMatrix> for ScoreDistribution and of the methods, loop bounds, clip sites, skip marker, rounding "
         "function; it never guesses: an unreadable source is a broken obligation)",
@@ -159,7 +187,11 @@ SPEC = dict(
         "rationals; f64::round/floor/`as i32` are exact half-away rounding, floor and saturation): the binary64 code "
         "is tied to them only by the bit-exact replay plus the stated tolerances (relative 2^-30, absolute "
         "|1-(sum b)^M|) of the correspondence run; IEEE rounding error of the table values is modelled, not verified "
-        "(C11_sf_monotone_range_ieee proves monotonicity and range of the table in binary64 itself)",
+        "(C11_table_binary64: the table of every distribution built by the binary64 model is non-increasing, in [0,1] and "
+        "finite - binary64 itself (Flocq), for a background of finite doubles in [0,1] (f64_bg_ok: the invariant of "
+        "`Background`; nothing about its sum) and c*M <= 1023 with c = ceil(log2(K+1)) (f64_dims_ok: M <= 341 DNA, M <= 204 "
+        "protein); no hypothesis about the pdf is left: C11_pdf_binary64; C11_table_length_structural: M*1000+1 entries for "
+        "every carrier)",
         "C11_sf_monotone_range, C11_pvalue_monotone: non-negative weights (any sum); C11_sf_is_tail, "
         "C11_pvalue_brackets_exact, C11_score_pvalue_roundtrip: non-negative weights of total mass <= 1 (an f32 "
         "background whose real sum exceeds 1 by 1e-7 is covered by the checker's tolerance delta, not by the theorems) "
@@ -172,9 +204,19 @@ SPEC = dict(
         "inside the domain (exact arithmetic)",
         "C11_max_score_is_best_word, C11_min_pvalue_is_best, C11_best_score_tail, C11_score_below_min_pvalue, C11_no_word_lost: "
         "exact-rational instance, non-negative weights of total mass <= 1 (C11_score_below_min_pvalue also 1000*M < 2^31-1)",
-        "C11_scale_monotone_binary64, C11_pvalue_monotone_binary64: binary64 itself (Flocq), for a finite w*offset and a finite "
-        "positive scale; the latter under the computable predicate f64_mono_pred (table non-increasing in [0,1], non-empty, "
-        "min_score >= 0)",
+        "C11_scale_monotone_binary64, C11_pvalue_monotone_binary64_f32: binary64 itself (Flocq); p-values of the bit-exact "
+        "model are non-increasing for all doubles s1 <= s2 for every matrix of f32 cells without NaN that has two different "
+        "non-infinite cells or is constant with |cell| <= 2^52 (f32_matrix_ok_any, computable on the bit patterns), background "
+        "of finite doubles in [0,1] (f64_bg_ok), c*M <= 1023 (f64_dims_ok): hypotheses on the INPUTS only, evaluated by the "
+        "driver on every case (104 of 105 built in-domain cases in the quick tier, 970 of 971 thorough); the remaining "
+        "in-domain matrices - constant with |cell| > 2^52 - have scale = +inf from 2^53 on (C11.ex_scale_pred_not_derivable, "
+        "corpus x1) and are covered only by C11_pvalue_monotone_binary64_built under the evaluated predicate f64_scale_pred d "
+        "(w*offset finite, scale finite > 0; the table part of the older f64_mono_pred is derived: C11_mono_pred_built)",
+        "matrices without any finite cell (M = 0, only -inf cells) are outside the property; the construction panics there "
+        "(C11_no_finite_cell_panics, C11_empty_matrix_panics; a robustness remark, not a C11 violation), lightmotif-py "
+        "raises ValueError (a1b1f91)",
+        "binary64 totality of build inside the domain (no Panic 3) and a relative error bound of the table values are not "
+        "proved: the bracket inequality for the binary64 code rests on the checker's 2^-30 / delta tolerances",
         "C11_max_score_structural, C11_min_pvalue_structural: every numeric carrier (binary64 included), no arithmetic assumption",
         "a best-word probability below 2^-1074 (e.g. 60 columns with a 2^-20 consensus symbol) is not representable: the generator "
         "keeps e*M <= 960",
